@@ -99,9 +99,14 @@ def run(pid, tier, seed, replay, t0):
     lock.__enter__()
     try:
         # ---- 1. translators + lake build
-        ok, out = vlib.run_translators()
-        if not ok:
-            broken.append({'what': 'obligation', 'name': 'translator tools/gen_*.py (source → Lean)', 'detail': out[-2000:]})
+        ok, out, failed_tools = vlib.run_translators()
+        for tool, tout in failed_tools:
+            # a translator that cannot read the current source leaves the ties it feeds undischarged — for the properties
+            # that use them and whose code anchors contain the header it stopped at (vlib.translator_concerns)
+            if vlib.translator_concerns(P, tool, tout):
+                broken.append({'what': 'obligation', 'name': f'translator tools/{tool} (source → Lean)', 'detail': tout[-2000:]})
+            else:
+                log(f'translator {tool} failed on a header outside the anchors/ties of {pid}: not an obligation of this property')
         for gen in getattr(P, 'translators', []):
             ok, out = gen(ctx)
             if not ok:
